@@ -20,7 +20,11 @@ type MultipartRequest struct {
 }
 
 func (s *MultipartRequest) Len() (n uint16) {
-	return s.Header.Len() + 8 + s.Body.Len()
+	n = s.Header.Len() + 8
+	if s.Body != nil {
+		n += s.Body.Len()
+	}
+	return
 }
 
 func (s *MultipartRequest) MarshalBinary() (data []byte, err error) {
@@ -36,8 +40,10 @@ func (s *MultipartRequest) MarshalBinary() (data []byte, err error) {
 	n += 4 // for padding
 	data = append(data, b...)
 
-	b, err = s.Body.MarshalBinary()
-	data = append(data, b...)
+	if s.Body != nil {
+		b, err = s.Body.MarshalBinary()
+		data = append(data, b...)
+	}
 
 	log.Debugf("Sending MultipartRequest (%d): %v", len(data), data)
 
